@@ -38,6 +38,22 @@ def pset(v):
 
 
 def run(ck, facts, tier):
+    _run(ck, facts, tier)
+    # the statement's "derivative returned for each function" also covers the basis evaluated at a dual-number abscissa: those four functions lift the
+    # f64 kernels by the chain rule (C15 R15.4) and must not short-circuit on the value — include that rule (guard against the mutual include).
+    if not getattr(ck, "_c14_nested", False):
+        ck._c14_nested = True
+        try:
+            from rules import c15
+            nd, tb = list(ck.not_decided), list(ck.trusted)
+            with ck.restrict({"R15.4"}):
+                c15.run(ck, facts, tier)
+            ck.not_decided[:], ck.trusted[:] = nd, tb
+        finally:
+            ck._c14_nested = False
+
+
+def _run(ck, facts, tier):
     NONE = Sym("ctor", "None")
     r1 = ck.rule("R14.1", "bsplev_single_f64 is the Cox-de Boor recursion as an ordered decision list: outside [t[i], t[i+k]] -> 0; x = t[last] and i >= len - org_k - 1 -> 1; "
                           "order 1 -> indicator of [t[i], t[i+1]); otherwise (x-t[i])/(t[i+k-1]-t[i]) B(i,k-1) + (t[i+k]-x)/(t[i+k]-t[i+1]) B(i+1,k-1), each term only when "
